@@ -185,6 +185,22 @@ def xcube_case(s: Stream, spec: Dict[str, Any], errors, tag, with_struct=False, 
               dict(inp, what='structure built by __init__'), tag='struct')
     op = (f'dec.xcube {lx} {ly} {lz} {axis or "none"} {px} {py} {pz} {D.fr(D.frac(p))} '
           f'{rec.dict_text()} {D.table_text(rec.events)} {D.syn_text(syndromes)}')
+    if max(size) >= 5:
+        # a plane index >= 8 wraps in the hash table of a small CPython set: `list(nodes_in_component)` is no
+        # longer ascending.  The model is parametric in that order (boundary: CPython set iteration); hand it
+        # the orders CPython produced.  One set object iterates in one order, but two sets with the same
+        # elements built by different insertion histories may differ: such a case is not compared.
+        orders = {}
+        for call in calls:
+            for t in call.split('~~', 1)[1].split(' '):
+                if t.startswith('C:') and len(t) > 2:
+                    for c in t[2:].split('/'):
+                        if c:
+                            key = tuple(sorted(int(x) for x in c.split(',')))
+                            if orders.setdefault(key, c) != c:
+                                s.skipped = getattr(s, 'skipped', 0) + 1
+                                return results
+        op += ' ' + ('/'.join(orders.values()) or '-')
     nontrivial = any(np.any(np.asarray(sy)) for sy in syndromes)
     s.add(op, ' || '.join(calls), inp, nontrivial=bool(nontrivial), tag=tag)
     return results
@@ -226,6 +242,36 @@ def weight12_stream(ctx, rng, name='xcube-weight-1-2') -> Stream:
             pairs = [pairs[i] for i in sorted(rng.choice(len(pairs), min(k, len(pairs)), replace=False))]
         for ch in chunks([([a, b], []) for a, b in pairs], 14):
             xcube_case(s, spec, ch, f'w2:{shape(size)}')
+    return s.run()
+
+
+LONG_SIZES = [(5, 2, 2), (2, 5, 2), (2, 2, 5), (6, 2, 2), (2, 6, 2), (2, 2, 6), (5, 3, 2), (2, 3, 7)]
+
+
+def long_sides_stream(ctx, rng, name='xcube-long-sides') -> Stream:
+    """lattices with a side of 5 or more: planes 9, 11, ... exist along that axis, `list(set)` of a component is
+    no longer ascending (the reference plane of a component can lie ABOVE the plane being projected, so the
+    first projection loop crosses the periodic seam); weight-2 and weight-3 X errors spread along the long
+    axis, a few random errors.  The recorded `list(set)` orders are handed to the model."""
+    thorough = ctx.thorough
+    s = Stream(name)
+    from panqec.codes import XCubeCode
+    sizes = LONG_SIZES if thorough else [LONG_SIZES[i] for i in sorted(rng.choice(len(LONG_SIZES), 3, replace=False))]
+    for size in sizes:
+        code = XCubeCode(*size)
+        n = code.n
+        spec = {'size': list(size), 'direction': [0.25, 0.25, 0.5], 'p': 0.125}
+        pairs = list(itertools.combinations(range(n), 2))
+        k = 420 if thorough else 112
+        pairs = [pairs[i] for i in sorted(rng.choice(len(pairs), min(k, len(pairs)), replace=False))]
+        for ch in chunks([([int(a), int(b)], []) for a, b in pairs], 14):
+            xcube_case(s, spec, ch, f'long-w2:{size}')
+        triples = [sorted(int(q) for q in rng.choice(n, 3, replace=False)) for _ in range(84 if thorough else 28)]
+        for ch in chunks([(t, []) for t in triples], 14):
+            xcube_case(s, spec, ch, f'long-w3:{size}')
+        em = D.make_noise((1 / 3, 1 / 3, 1 / 3))
+        errs = [D.supports(e, n) for e in D.random_errors(code, em, rng, 6, rates=(0.02, 0.05, 0.1))]
+        xcube_case(s, spec, errs, f'long-random:{size}')
     return s.run()
 
 
